@@ -37,3 +37,66 @@ pub fn tap(e: Event) {
         f(&e);
     }
 }
+
+// ---- runtime overrides of size thresholds (0 = not overridden)
+
+static MAX_CACHE: AtomicUsize = AtomicUsize::new(0);
+static CROSSOVER: AtomicUsize = AtomicUsize::new(usize::MAX);
+
+/// Overrides vecdb's write-batch limit in bytes (`None` restores the default).
+pub fn set_max_cache_size(v: Option<usize>) {
+    MAX_CACHE.store(v.unwrap_or(0), Ordering::SeqCst);
+}
+
+#[inline]
+pub fn max_cache_size(default: usize) -> usize {
+    match MAX_CACHE.load(Ordering::Relaxed) {
+        0 => default,
+        v => v,
+    }
+}
+
+/// Overrides the mmap/file-IO crossover in bytes (`None` restores the default).
+pub fn set_crossover_bytes(v: Option<usize>) {
+    CROSSOVER.store(v.unwrap_or(usize::MAX), Ordering::SeqCst);
+}
+
+/// Maps a range size so that the unchanged comparison against the built-in
+/// constant selects the back-end the override asks for.
+#[inline]
+pub fn crossover_adjust(range_bytes: usize) -> usize {
+    match CROSSOVER.load(Ordering::Relaxed) {
+        usize::MAX => range_bytes,
+        t => {
+            if range_bytes > t {
+                usize::MAX
+            } else {
+                0
+            }
+        }
+    }
+}
+
+// ---- access tap: every byte range dereferenced / read on behalf of a vector
+
+pub type AccessFn = fn(region_id: &str, offset: usize, len: usize, region_len: usize, via: &'static str);
+
+static ACCESS: AtomicUsize = AtomicUsize::new(0);
+
+pub fn set_access_tap(f: Option<AccessFn>) {
+    ACCESS.store(f.map_or(0, |f| f as usize), Ordering::SeqCst);
+}
+
+#[inline]
+pub fn access_enabled() -> bool {
+    ACCESS.load(Ordering::Relaxed) != 0
+}
+
+#[inline]
+pub fn access(region_id: &str, offset: usize, len: usize, region_len: usize, via: &'static str) {
+    let p = ACCESS.load(Ordering::Relaxed);
+    if p != 0 {
+        let f: AccessFn = unsafe { std::mem::transmute::<usize, AccessFn>(p) };
+        f(region_id, offset, len, region_len, via);
+    }
+}
